@@ -1,5 +1,6 @@
 import Driver.Util
 import DiskfsModel.Model.Detect
+import DiskfsModel.Model.DetectFat32
 import DiskfsModel.Generated.Detect
 namespace Driver.Detect
 open Diskfs Diskfs.Detect Driver
@@ -44,8 +45,12 @@ def deepOf (s : String) (k : Kind) : Verdict :=
 /-- detect.probe size= avail= ss= win= deep=  →  acc=<one char per kind> probe=<kind|none|panic> -/
 def probeCase (args : List String) : String :=
   let rd := mkRd (parseWins ((arg args "win").getD ""))
-  let c : Ctx := { size := argNatD args "size", avail := argNatD args "avail", bs := argNatD args "ss" 512,
-                   deep := deepOf ((arg args "deep").getD "000000") }
+  let deepS := (arg args "deep").getD "000000"
+  let avail := argNatD args "avail"
+  -- 'm' in FAT32's position: the engine supplied the FAT windows, the model compares the copies itself
+  let deep : Kind → Verdict := fun k =>
+    if k == .fat32 && deepS.toList.getD 0 '0' == 'm' then fat32Deep rd avail else deepOf deepS k
+  let c : Ctx := { size := argNatD args "size", avail := avail, bs := argNatD args "ss" 512, deep := deep }
   let v := verdict params rd c
   let acc := String.ofList (Kind.all.map fun k => vChar (v k))
   s!"acc={acc}\tprobe={(probe v order).str}"
@@ -69,10 +74,23 @@ def bootCase (args : List String) : String :=
     | none => "refused"
     | some L => s!"s0={toHex (sectorBytes (bootFat1x is16 L 0 label) 512)}\tcount={L.count}\tspf={L.spf}\tspc={L.spc}"
 
+/-- detect.fat32 size= avail= ss= win=  →  acc32=<0|1|p>: fat32.Read as a whole, nothing observed -/
+def fat32Case (args : List String) : String :=
+  let rd := mkRd (parseWins ((arg args "win").getD ""))
+  let v := verdictFat32Full params rd (argNatD args "size") (argNatD args "avail") (argNatD args "ss" 512)
+  s!"acc32={vChar v}"
+
+/-- detect.ext4boot → what ext4.Create does to bytes 0..1023 of the volume (regenerated switch):
+    clear=1: the last write touching them is 1024 zero bytes at offset 0 -/
+def ext4BootCase (_args : List String) : String :=
+  s!"clear={if Generated.Detect.ext4CreateClearsBootArea then 1 else 0}"
+
 end Driver.Detect
 
 def main : IO Unit := Driver.runLoop fun op args =>
   match op with
   | "detect.probe" => Driver.Detect.probeCase args
   | "detect.boot" => Driver.Detect.bootCase args
+  | "detect.ext4boot" => Driver.Detect.ext4BootCase args
+  | "detect.fat32" => Driver.Detect.fat32Case args
   | _ => "unknown-op"
